@@ -47,6 +47,8 @@ FAMILIES = {
     "floats": [{"a": 0.5, "b": True}, {"a": 2.25, "b": False}, {"a": 10.0, "b": True}, {"a": 1.0, "b": False}],
     "single": [{"a": 1, "b": [1, 2]}],
     "empty": [],
+    "leafnode": [{"name": "sim"}, {"name": "sim.old"}, {"name": "sim/final"}, {"name": "sim-1"}, {"name": "sim/final/x"},
+                 {"name": "sim+"}],
     "lists": [{"a": [1, 2]}, {"a": [1, 3]}, {"a": [1]}],
 }
 SCHEMA_FAMILIES = {
@@ -55,7 +57,7 @@ SCHEMA_FAMILIES = {
     "two": ("a/{a}/b/{b}", "a/{a:int}/b/{b}"),
     "floats": ("a_{a}/b_{b}", "a_{a:float}/b_{b:bool}"),
 }
-PATHS = [None, False, "a/{a}", "{a}", "val_{a}", "x/{{auto}}", "{{auto:_}}", "{job.id}", "id/{job.id}/a/{a}",
+PATHS = [None, False, "a/{a}", "{a}", "{name}", "n/{name}", "val_{a}", "x/{{auto}}", "{{auto:_}}", "{job.id}", "id/{job.id}/a/{a}",
          "callable-id", "callable-a"]
 
 
